@@ -24,7 +24,9 @@ R = Registry(
         "SQL or guards/raises on the diverging part (oracle evaluator_sql_semantics.json); the bulk "
         "UPDATE/DELETE synchronisation catches UnevaluatableError as documented ('evaluate' raises "
         "InvalidRequestError, 'auto' falls back to fetch), matches objects by identity tests on the "
-        "evaluator result, consumes the undecided (expired) flag and never stores the sentinel."
+        "evaluator result, consumes the undecided (expired) flag and never stores the sentinel; the in-session "
+        "candidates of the evaluate synchroniser are filtered by mapper, not-expired and -- exactly when a token was "
+        "given -- identity token; identity tokens are tested with `is None`/`is not None`, never for truthiness."
     ),
     not_decided=(
         "equality of evaluated and database truth for arbitrary criteria (collations, numeric precision, "
@@ -861,3 +863,7 @@ R.mutant("benign-matched-objects-single-pass", BP,
 R.mutant("fix-get-options-token-is-not-none", "orm/loading.py",
          sub("    if identity_token:\n        load_options[\"_identity_token\"] = identity_token\n", "    if identity_token is not None:\n        load_options[\"_identity_token\"] = identity_token\n"),
          None)
+R.mutant("matched-objects-token-filter-inverted", BP,
+         sub("                for obj, state, dict_ in raw_data\n                if state.identity_token == identity_token\n",
+             "                for obj, state, dict_ in raw_data\n                if state.identity_token != identity_token\n"),
+         "C43-R5")
